@@ -125,4 +125,201 @@ def item_concat_init(repo, out):
     out.append('Definition obs_other_allow_repeats : list string := %s.' % coq_strings(others))
 
 
-ITEMS = [item_concat_init]
+
+
+# ---------------------------------------------------------------------------------------------------------------
+# what makes two subarrays / spectral windows "identical" (the values concatenate_categorical merges)
+
+def _prop_returns(cls, name, rel):
+    fn = _func(cls, name, rel)
+    body = [n for n in fn.body if not (isinstance(n, ast.Expr) and isinstance(n.value, ast.Constant))]
+    return fn, body
+
+
+def _check_eq_hash(cls, cname, rel):
+    """__eq__ / __hash__ / __ne__ go through _description and nothing else."""
+    _, eq = _prop_returns(cls, '__eq__', rel)
+    want = 'returnself._description==(other._descriptionifisinstance(other,%s)elseother)' % cname
+    if len(eq) != 1 or _src(eq[0]) != want:
+        raise TranslateError('%s.__eq__ is not the comparison of _description' % cname)
+    _, hs = _prop_returns(cls, '__hash__', rel)
+    if len(hs) != 1 or _src(hs[0]) != 'returnhash(self._description)':
+        raise TranslateError('%s.__hash__ is not hash(self._description)' % cname)
+    _, ne = _prop_returns(cls, '__ne__', rel)
+    if len(ne) != 1 or _src(ne[0]) != 'returnnot self==other'.replace(' ', '') and _src(ne[0]) != 'returnnot(self==other)':
+        raise TranslateError('%s.__ne__ is not the negation of __eq__' % cname)
+
+
+def item_identity(repo, out):
+    """Subarray._description = (descriptions of the antennas in order, the correlation products in order);
+    SpectralWindow._description = a tuple of attributes: the field lists are what Model/ConcatIdent.v compares."""
+    rel = 'katdal/dataset.py'
+    sub = _class(_parse(repo, rel), 'Subarray', rel)
+    _check_eq_hash(sub, 'Subarray', rel)
+    _, body = _prop_returns(sub, '_description', rel)
+    if len(body) != 3 or not isinstance(body[2], ast.Return):
+        raise TranslateError('Subarray._description: expected two assignments and a return')
+    parts = []
+    for stmt, var, sep, attr in ((body[0], 'ants', '\n', 'ants'), (body[1], 'corrprods', ' ', 'corr_products')):
+        if not (isinstance(stmt, ast.Assign) and len(stmt.targets) == 1 and isinstance(stmt.targets[0], ast.Name)
+                and stmt.targets[0].id == var):
+            raise TranslateError('Subarray._description: expected an assignment to `%s`' % var)
+        call = stmt.value
+        if not (isinstance(call, ast.Call) and isinstance(call.func, ast.Attribute) and call.func.attr == 'join'
+                and isinstance(call.func.value, ast.Constant) and call.func.value.value == sep
+                and len(call.args) == 1 and not call.keywords and isinstance(call.args[0], ast.GeneratorExp)):
+            raise TranslateError('Subarray._description: `%s` is not <sep>.join(<generator over self.%s>) '
+                                 '(the elements in their own order)' % (var, attr))
+        gen = call.args[0]
+        if not (len(gen.generators) == 1 and not gen.generators[0].ifs
+                and _src(gen.generators[0].iter) == 'self.' + attr):
+            raise TranslateError('Subarray._description: `%s` does not run over self.%s in order' % (var, attr))
+        elt = _src(gen.elt)
+        tgt = _src(gen.generators[0].target)
+        if attr == 'ants':
+            if not (tgt == 'ant' and elt == 'ant.description'):
+                raise TranslateError('Subarray._description: antennas are not compared by their full description')
+            parts.append(('ants', 'description'))
+        else:
+            if not (tgt == '(inpA,inpB)' and elt == "f'{inpA},{inpB}'"):
+                raise TranslateError('Subarray._description: products are not compared as the pair of input labels')
+            parts.append(('corr_products', 'inpA,inpB'))
+    if _src(body[2]) != "return'\\n'.join((ants,corrprods))":
+        raise TranslateError('Subarray._description: does not return the antennas followed by the products')
+    out.append('Definition subarray_description_parts : list (string * string) := [%s].'
+               % '; '.join('(%s, %s)' % (coq_string(a), coq_string(b)) for a, b in parts))
+    # the constructor keeps the products in the given order (lower-cased) and the antennas in the given order
+    init = [_src(n) for n in _func(sub, '__init__', rel).body]
+    for text, what in (('self.corr_products=np.array([(inpA.lower(),inpB.lower())forinpA,inpBincorr_products])', 'products in order'),
+                       ('self.ants=[antforantinantsifant.nameininput_ants]', 'antennas in order')):
+        if text not in init:
+            raise TranslateError('Subarray.__init__: expected `%s` (%s)' % (text, what))
+    out.append('Definition subarray_keeps_given_order : bool := true.')
+    rel2 = 'katdal/spectral_window.py'
+    spw = _class(_parse(repo, rel2), 'SpectralWindow', rel2)
+    _check_eq_hash(spw, 'SpectralWindow', rel2)
+    _, body = _prop_returns(spw, '_description', rel2)
+    if not (len(body) == 1 and isinstance(body[0], ast.Return) and isinstance(body[0].value, ast.Tuple)):
+        raise TranslateError('SpectralWindow._description: does not return a tuple')
+    fields = []
+    for e in body[0].value.elts:
+        if isinstance(e, ast.UnaryOp) and isinstance(e.op, ast.USub):
+            e = e.operand           # the sign only matters for the ordering of windows, not for their identity
+        if not (isinstance(e, ast.Attribute) and isinstance(e.value, ast.Name) and e.value.id == 'self'):
+            raise TranslateError('SpectralWindow._description: element %s is not (-)self.<attribute>' % _src(e))
+        fields.append(e.attr)
+    out.append('Definition spw_description_fields : list string := %s.' % coq_strings(fields))
+
+
+# ---------------------------------------------------------------------------------------------------------------
+# the dummy value per type (sensordata.dummy_sensor_getter), the filler of ConcatenatedSensorCache.get
+
+def item_dummy(repo, out):
+    """The if-chain `if np.issubdtype(dtype, np.<abstract type>): value = ...` as a table (type class, filler)."""
+    rel = 'katdal/sensordata.py'
+    fn = _func(_parse(repo, rel), 'dummy_sensor_getter', rel)
+    args = [a.arg for a in fn.args.args]
+    defaults = [_src(d) for d in fn.args.defaults]
+    if args != ['name', 'value', 'dtype', 'timestamp'] or defaults != ['None', 'np.float64', '0.0']:
+        raise TranslateError('dummy_sensor_getter: signature changed')
+    ifs = [n for n in fn.body if isinstance(n, ast.If)]
+    if not ifs or _src(ifs[0].test) != 'valueisNone':
+        raise TranslateError('dummy_sensor_getter: `if value is None:` not found')
+    node = ifs[0].body
+    if len(node) != 1 or not isinstance(node[0], ast.If):
+        raise TranslateError('dummy_sensor_getter: the branch for value=None is not a single if-chain on the dtype')
+    table = []
+    cur = node[0]
+    fillers = {'np.dtype(dtype).type(np.nan)': 'nan', 'np.dtype(dtype).type(-1)': '-1', "''": 'empty', 'False': 'False',
+               'np.array(-1).astype(dtype)[()]': '-1'}      # the latter: -1 / all bits set, the repair of finding C19-F4
+    while True:
+        classes = []
+        tests = cur.test.values if isinstance(cur.test, ast.BoolOp) and isinstance(cur.test.op, ast.Or) else [cur.test]
+        for t in tests:
+            src = _src(t)
+            if not (src.startswith('np.issubdtype(dtype,np.') and src.endswith(')')):
+                raise TranslateError('dummy_sensor_getter: test `%s` is not np.issubdtype(dtype, np.<class>)' % src)
+            classes.append(src[len('np.issubdtype(dtype,np.'):-1])
+        if not (len(cur.body) == 1 and isinstance(cur.body[0], ast.Assign) and _src(cur.body[0].targets[0]) == 'value'):
+            raise TranslateError('dummy_sensor_getter: a branch does not just assign `value`')
+        val = _src(cur.body[0].value)
+        if val not in fillers:
+            raise TranslateError('dummy_sensor_getter: unknown filler expression `%s`' % val)
+        for c in classes:
+            table.append((c, fillers[val]))
+        if not cur.orelse:
+            break
+        if len(cur.orelse) != 1 or not isinstance(cur.orelse[0], ast.If):
+            raise TranslateError('dummy_sensor_getter: the chain ends with an else branch')
+        cur = cur.orelse[0]
+    out.append('Definition dummy_value_table : list (string * string) := [%s].'
+               % '; '.join('(%s, %s)' % (coq_string(a), coq_string(b)) for a, b in table))
+    # ConcatenatedSensorCache.get hands it the initial_value property and the common dtype of the parts that have the sensor
+    tree = _parse(repo, REL)
+    get = _src(_func(_class(tree, 'ConcatenatedSensorCache', REL), 'get', REL))
+    for text in ("dtype=common_dtype(split_data2)", "dummy=dummy_sensor_getter(name,value=props.get('initial_value'),dtype=dtype)",
+                 "filler=self._extract(dummy,cache.timestamps,cache.dump_period,**props)"):
+        if text not in get:
+            raise TranslateError('ConcatenatedSensorCache.get: expected `%s`' % text)
+    out.append('Definition concat_filler_is_dummy_of_common_dtype : bool := true.')
+
+
+# ---------------------------------------------------------------------------------------------------------------
+# DataSet.select: what Model/ConcatMulti.v assumes about spw= / subarray=
+
+def item_select_sw(repo, out):
+    """select(): spw / subarray default to the current ones, indices beyond the lists raise IndexError, the time mask
+    is reset to (spw_index == spw) & (subarray_index == subarray), the channel / product masks get the size of THAT
+    window / subarray, and every product criterion and the derived corr_products read subarrays[self.subarray]."""
+    rel = 'katdal/dataset.py'
+    fn = _func(_class(_parse(repo, rel), 'DataSet', rel), 'select', rel)
+    lines = [_src(n) for n in fn.body]
+
+    def need(text, what):
+        if text not in lines:
+            raise TranslateError('DataSet.select: expected `%s` (%s)' % (text, what))
+        return lines.index(text)
+    i1 = need("kwargs['spw']=spw=kwargs.get('spw',self.spw)", 'spw defaults to the current one')
+    i2 = need("kwargs['subarray']=subarray=kwargs.get('subarray',self.subarray)", 'subarray defaults to the current one')
+    guards = [n for n in fn.body if isinstance(n, ast.If) and _src(n.test) in ('spw>=len(self.spectral_windows)', 'subarray>=len(self.subarrays)')]
+    if len(guards) != 2 or not all(len(g.body) == 1 and isinstance(g.body[0], ast.Raise) and _src(g.body[0].exc).startswith('IndexError(')
+                                   for g in guards):
+        raise TranslateError('DataSet.select: spw / subarray beyond the lists do not raise IndexError')
+    switches = {}
+    for n in fn.body:
+        if isinstance(n, ast.If) and _src(n.test) in ('spw!=self.spw', 'subarray!=self.subarray'):
+            switches[_src(n.test)] = [_src(x) for x in n.body]
+    if switches.get('spw!=self.spw') != ["reset+='TF'", 'self.spw=spw'] \
+            or switches.get('subarray!=self.subarray') != ["reset+='TB'", 'self.subarray=subarray']:
+        raise TranslateError('DataSet.select: switching spw / subarray does not reset TF / TB and store the new index')
+    resets = {}
+    for n in fn.body:
+        if isinstance(n, ast.If) and _src(n.test) in ("'T'inreset", "'F'inreset", "'B'inreset"):
+            resets[_src(n.test)[1]] = [_src(x) for x in n.body if not isinstance(x, ast.For)]
+    if resets.get('T') != ['self._time_keep[:]=True', "self._time_keep&=self.sensor.get('Observation/spw_index')==spw",
+                           "self._time_keep&=self.sensor.get('Observation/subarray_index')==subarray"]:
+        raise TranslateError('DataSet.select: the time mask is not reset to (spw_index == spw) & (subarray_index == subarray)')
+    if resets.get('F') != ['self._freq_keep=np.ones(self.spectral_windows[self.spw].num_chans,dtype=bool)']:
+        raise TranslateError('DataSet.select: the channel mask is not reset to the size of spectral_windows[self.spw]')
+    if resets.get('B') != ['self._corrprod_keep=np.ones(len(self.subarrays[self.subarray].corr_products),dtype=bool)']:
+        raise TranslateError('DataSet.select: the product mask is not reset to the size of subarrays[self.subarray]')
+    if not i1 < i2:
+        raise TranslateError('DataSet.select: spw / subarray statements out of order')
+    out.append('Definition select_time_reset_sensors : list string := %s.'
+               % coq_strings(['Observation/spw_index', 'Observation/subarray_index']))
+    # every read of a product list / channel grid goes through the CURRENT subarray / window
+    src = _src(fn)
+    import re
+    subs = re.findall(r'self\.subarrays\[([^\]]*)\]', src)
+    spws = re.findall(r'self\.spectral_windows\[([^\]]*)\]', src)
+    if not subs or any(x != 'self.subarray' for x in subs):
+        raise TranslateError('DataSet.select: a subarray other than subarrays[self.subarray] is read: %s' % sorted(set(subs)))
+    if not spws or any(x != 'self.spw' for x in spws):
+        raise TranslateError('DataSet.select: a window other than spectral_windows[self.spw] is read: %s' % sorted(set(spws)))
+    need('self.corr_products=self.subarrays[self.subarray].corr_products[self._corrprod_keep]', 'derived corr_products')
+    out.append('Definition select_reads_only_current_subarray : bool := true.')
+    out.append('Definition select_reads_only_current_spw : bool := true.')
+    out.append('Definition select_sw_out_of_range_raises_indexerror : bool := true.')
+
+
+ITEMS = [item_concat_init, item_identity, item_dummy, item_select_sw]
